@@ -118,11 +118,14 @@ class Rule:
                         if isinstance(datum, k):
                             try:
                                 datum = v(datum)
-                                break
                             except TypeError:
-                                pass
-                    datum_path = DataPath(*datum_path)
-                    set_datum(data_copy, datum_path, datum)
+                                continue
+                            # only write back a datum that was actually cast: an
+                            # un-cast datum belongs to the original data, and
+                            # writing it into the copy would alias the two.
+                            datum_path = DataPath(*datum_path)
+                            set_datum(data_copy, datum_path, datum)
+                            break
 
         return RuleTest(self, data_copy)
 
